@@ -51,6 +51,86 @@ CLAIMED = {
         technique="TLA+ gate model + Build.tla fail-stop invariants checked by TLC; scenarios replayed on the real CLI and in-process",
         design_ref="DESIGN.md §4.4, §5 C17",
     ),
+
+    "C01": dict(
+        text="Compile.tla (reuse cache / Hit / Miss / overflow fallbacks, exact rational affine geometry, symmetric shapes so affine_between's "
+             "choice is nondeterministic) is model-checked for SamePicture, FillSame, OrderKept, Representable, StoredOnce over all lists of <=3 layers "
+             "cut into <=2 glyphs; sampled scenarios are concretised, compiled by the real pipeline (glyf/cff/cff2 COLRv1, 8 metric/transform/"
+             "quantisation variants), reloaded and compared layer by layer by an independent layer oracle (COLR spec reading vs SVG spec reading, "
+             "tolerances from ground truth); random continuous scenarios and the repository's sample SVGs go through the same oracle; recorded "
+             "reuse-cache executions are validated against CompileTrace.tla.",
+        note="Trusted: TLC; fontTools; picosvg's path parsing and its normalize/affine_between (assumed as stated in Compile.tla); the layer oracle "
+             "(agrees with the real compiler on 44 repository SVGs, detects seeded placement / opacity / gradient mutants).  No COLRv1 renderer "
+             "exists in the sandbox: 'paints' means the COLR semantics as read by the oracle.",
+        technique="TLA+ model of the reuse/migration protocol checked by TLC; spec-to-code replay with an independent layer oracle; code-to-spec trace validation (CompileTrace.tla)",
+        design_ref="DESIGN.md §3.3, §4.2, §5 C01",
+    ),
+    "C02": dict(
+        text="OTSVG.tla (grouping in input order, contiguous reordering, per-document element placement with <defs> migration, stand-in <use> for "
+             "donors that sort after their users, tidy) is model-checked for SamePicture, NoCrossGlyphRef, HrefsClosed, DocRanges, PlacedOnce over all "
+             "inputs of <=2 glyphs x <=3 layers x name orders; scenarios are built into real picosvg(z) fonts, documents projected to the model's "
+             "vocabulary (structure matched exactly: 0 drift) and rendered by an independent OT-SVG oracle; random scenarios over "
+             "picosvg(z)/untouchedsvg(z) with shuffled input order.  TLC found the tidy defect (donor repainted) now fixed in /repo.",
+        note="Trusted: TLC; lxml; the OT-SVG oracle (SVG 1.1 subset: g, path, use, defs, basic shapes, fill inheritance, opacity, gradients).",
+        technique="TLA+ model of the document assembly protocol checked by TLC; spec-to-code replay with structural projection and an independent OT-SVG renderer",
+        design_ref="DESIGN.md §4.3, §5 C02",
+    ),
+    "C03": dict(
+        text="Flatten.tla (Paint.breadth_first as a FIFO frontier over Composite -> ColrLayers -> leaves, reuse wrappers visited before their "
+             "PaintGlyph) is model-checked for EachLeafOnce and ZOrderWhenFlat over every forest of <=4 leaves; each forest is concretised and built as "
+             "COLRv0 and the emitted layer order compared with the model (0 drift); group-free solid sources are compared layer by layer incl. "
+             "palette colour/alpha and base-glyph extents; random scenarios in glyf / glyf_colr_0 / cff_colr_0 / cff2_colr_0 for 'each outline exactly once'.",
+        note="Trusted: TLC; fontTools glyph sets; the layer oracle.  'Places' = sampled overlap >= 60% in a one-to-one matching.",
+        technique="TLA+ model of the breadth-first flattening checked by TLC; spec-to-code replay with geometric layer matching",
+        design_ref="DESIGN.md §4.2, §5 C03",
+    ),
+    "C05": dict(
+        text="ClipBox.tla (union, otRound, outward quantisation over exact rationals on both sides of every rounding/quantisation boundary) is "
+             "model-checked for Contains, Multiples, Tight, NoBoxIffNoLayers and every terminal state replayed into the real quantiser; real COLRv1 "
+             "fonts (Compile.tla scenarios and random scenarios x steps {default,1,7,50} x metrics x user transforms, content outside the viewBox) are "
+             "read back: ClipList against bounds recomputed independently from the compiled outlines through the paint graph and against the source shapes.",
+        note="Trusted: TLC; fontTools; the oracle's outline flattening (under-estimates a curved edge by < 0.1 unit).",
+        technique="TLA+ transcription of the clip-box computation checked by TLC, replayed state by state; independent recomputation on real fonts",
+        design_ref="DESIGN.md §4.2, §5 C05",
+    ),
+    "C06": dict(
+        text="Compile.tla explored with reuse on and off (same denotation invariants in both) and OTSVG.tla for the <use> side; pairs of real builds "
+             "differing only in reuse_tolerance (t vs -1) over Compile.tla sharing patterns, random scenarios, near-miss copies at 0.5/0.9/1.1/2x "
+             "tolerance, small-donor/large-copy transforms beyond Fixed, black-donor in-glyph reuse, for COLRv1, COLRv0 and picosvg, compared layer for "
+             "layer by the oracle; a CLI pair proves the documented way of disabling reuse builds.",
+        note="The reuse-off build is the reference for the reuse-on build; C01/C02/C03 tie the reference to the source.",
+        technique="TLA+ models checked by TLC in both reuse modes; differential replay of real build pairs judged by the layer oracle",
+        design_ref="DESIGN.md §5 C06",
+    ),
+    "C08": dict(
+        text="Build.tla with FreeSchedule on the ninja graphs the real driver writes (B3) checks that every interleaving of a clean invocation ends in "
+             "the canonical content term and that every file a step really reads (strace) is ordered before it by declared inputs "
+             "(DeclaredCoversRead); real builds of one source set per format under argument permutations, hash seeds, -j1, random topological "
+             "edge-by-edge orders and a different cwd/build-dir layout must have identical sha256.",
+        note="Trusted: TLC, ninja, strace; SOURCE_DATE_EPOCH fixed.  Schedules are exhaustive on the model, sampled on the real CLI.",
+        technique="TLA+ model of ninja scheduling on graphs extracted from the code, checked by TLC; differential real builds",
+        design_ref="DESIGN.md §4.1, §5 C08",
+    ),
+    "C19": dict(
+        text="Compile.tla's StoredOnce (one outline per class plus one per unrepresentable copy; none shared with reuse off) is model-checked; its "
+             "sharing patterns and OTSVG.tla's are concretised with random shapes of the grammar under random isometries in viewBoxes >= 24 units and "
+             "built as glyf_colr_0, glyf_colr_1 and picosvg; the fonts are projected (outline glyph per layer after flattening composites, <use> vs "
+             "<path>).  Two mechanisms by which picosvg fails to recognise congruent copies are reproduced and reported as known findings, matched "
+             "only when the harness re-derives them (different normalised keys / affine_between None).",
+        note="Representability is computed from ground truth.  Copies are congruent up to the 4-decimal precision of the written path data.",
+        technique="TLA+ invariant checked by TLC; sharing patterns replayed into real builds with structural projection",
+        design_ref="DESIGN.md §5 C19",
+    ),
+    "C20": dict(
+        text="Config.tla over FontConfig._fields (B3) x provenance {default,file,flag,both} with the worker rule's own flags parsed from the real "
+             "build.ninja checks Precedence and RoundTrip and predicts which options cannot reach the worker; every single-field vector is replayed on "
+             "the real CLI and the option's observable read from the written font; pairs of configurations built in one invocation are compared "
+             "(sha256) with each configuration built alone.",
+        note="Three genuine limitations are reproduced every run and reported as known findings (fea_file hidden by the rule's flag; bitmap "
+             "intermediates keyed by source name; custom glyph names with sequences); two defects were repaired with fix: commits.",
+        technique="TLA+ model of the driver->TOML->worker channel checked by TLC; vectors replayed on the real CLI with per-option observables",
+        design_ref="DESIGN.md §4.9, §5 C20",
+    ),
 }
 
 NOT_YET = "check not built yet in this round; will be claimed once its TLA+ module and conformance harness exist"
